@@ -38,6 +38,18 @@ def timed(fn):
     return bool(box["r"]), dt, ""
 
 
+def patient(fn):
+    """a request blocked by somebody else's stall stays blocked while the stall lasts (the stalled sockets are held open by
+    the driver); a request that was merely slow on a busy machine succeeds when repeated: only a repeated failure counts"""
+    ok, dt, why = timed(fn)
+    tries = 1
+    while not ok and tries < 3:
+        time.sleep(1.0)
+        ok, dt, why = timed(fn)
+        tries += 1
+    return ok, dt, why if not ok else ""
+
+
 def probes(topo, origin, situation, rules_body):
     """one probe per API endpoint and per listener; returns records"""
     out = []
@@ -48,7 +60,7 @@ def probes(topo, origin, situation, rules_body):
     eps = [("status", api_call("/status")), ("live", api_call("/live")), ("history", api_call("/history")), ("rules-get", api_call("/rules")),
            ("rules-post", api_call("/rules", "POST", rules_body)), ("metrics", api_call("/metrics")), ("logrotate", api_call("/logrotate", "POST", ""))]
     for name, fn in eps:
-        ok, dt, why = timed(fn)
+        ok, dt, why = patient(fn)
         out.append({"ev": "probe", "situation": situation, "kind": "api/" + name, "ok": ok, "seconds": round(dt, 2), "why": why})
     T = ("ipv4", "127.0.0.1", origin.port)
 
@@ -68,7 +80,7 @@ def probes(topo, origin, situation, rules_body):
             return ok
         return f
     for proto in ("http", "socks5", "socks4"):
-        ok, dt, why = timed(fresh(proto))
+        ok, dt, why = patient(fresh(proto))
         out.append({"ev": "probe", "situation": situation, "kind": "fresh/" + proto, "ok": ok, "seconds": round(dt, 2), "why": why})
     return out
 
